@@ -5,7 +5,12 @@
    _collect_if/try_structure, the block skeleton of _parse_simple_lines and of parse()).
    Specification side: Lang/PyLayout.v (Python's layout rules), Lang/Layout.v (the re-layout
    relation and its guard), Lang/DispatchSpec.v (the fixed set of lines that may disappear);
-   Gen/Dispatch.v is the table observed on the current /repo. *)
+   Gen/Dispatch.v is the table observed on the current /repo.
+
+   The model is the parser WITH the repair "fix: comments never change the block structure the
+   parser sees"; the three comment defects that used to be refuted here (column-0 comment inside
+   a block, trailing comment on a column-0 header, trailing comment on elif/else/except) are now
+   covered by positive theorems; their former witnesses are kept as Examples. *)
 From Coq Require Import ZArith List Bool.
 From RV Require Import Base.Wire Base.Text Lang.Lex Lang.PyLayout Lang.Layout Lang.DispatchSpec Gen.Dispatch.
 From RV Require Import Proofs.LexP Proofs.RelayoutP Proofs.RoundTripP Proofs.C07P.
@@ -31,27 +36,43 @@ Print Assumptions C07_strip_comment_triple_quote_refuted.
 
 (* ---------------------------------------------------------------- block extent *)
 
-(* _collect_block = Python's block for scripts indented with spaces only or tabs only, whose
-   comment-only lines inside the block are indented deeper than the header *)
+(* _collect_block = Python's block for scripts indented with spaces only or tabs only (and no
+   exotic white space); comment-only lines may stand at ANY column, column 0 included *)
 Theorem C07_collect_block_partial : forall lines start,
   block_guard lines start = true -> collect_block lines start = py_block lines start.
 Proof. exact collect_block_is_py_block. Qed.
 Print Assumptions C07_collect_block_partial.
 
+(* non-vacuity: a block with a comment at column 0, a blank line and a statement *)
 Example C07_collect_block_nonvacuous :
-  block_guard [[119;104;105;108;101;32;120;58]; [32;32;35;32;99]; []; [32;32;32;97;61;49]; [98;61;50]] 0 = true
-  /\ fst (py_block [[119;104;105;108;101;32;120;58]; [32;32;35;32;99]; []; [32;32;32;97;61;49]; [98;61;50]] 0)
-     = [[32;32;35;32;99]; []; [32;32;32;97;61;49]].
+  block_guard [[119;104;105;108;101;32;120;58]; [35;32;99]; []; [32;32;32;97;61;49]; [98;61;50]] 0 = true
+  /\ fst (py_block [[119;104;105;108;101;32;120;58]; [35;32;99]; []; [32;32;32;97;61;49]; [98;61;50]] 0)
+     = [[35;32;99]; []; [32;32;32;97;61;49]].
 Proof. split; vm_compute; reflexivity. Qed.
 Print Assumptions C07_collect_block_nonvacuous.
 
-(* a comment at column 0 inside a block moves the statements after it out of the block *)
-Theorem C07_comment_col0_refuted :
-  exists lines start,
-    block_guard_nc lines start = true /\
-    filter py_logical (fst (collect_block lines start)) <> py_block_logical lines start.
-Proof. exact comment_col0_refuted. Qed.
-Print Assumptions C07_comment_col0_refuted.
+(* (repaired; was C07_comment_col0_refuted) a comment-only line at any column inside a block moves
+   no statement out of the block: the logical lines _collect_block returns are Python's *)
+Theorem C07_comment_any_column : forall lines start,
+  block_guard lines start = true ->
+  filter py_logical (fst (collect_block lines start)) = py_block_logical lines start.
+Proof. exact comment_any_column. Qed.
+Print Assumptions C07_comment_any_column.
+
+(* the former witness (`# note` at column 0 between two statements of a while block) is inside
+   the guard, keeps both statements in the block, and parses like the script without the comment *)
+Example C07_comment_col0_witness :
+  block_guard w_col0 0 = true
+  /\ filter py_logical (fst (collect_block w_col0 0)) = [[32;32;32;32;97;32;61;32;49]; [32;32;32;32;98;32;61;32;50]]
+  /\ map erase_item (parse_top w_col0) = map erase_item (parse_top w_col0_plain).
+Proof. exact comment_col0_witness. Qed.
+Print Assumptions C07_comment_col0_witness.
+
+(* the elif/else/except probes skip a line iff _strip_inline_comment(raw).strip() is empty: these
+   are exactly the lines _collect_block keeps in a block (blank or comment-only, any column) *)
+Theorem C07_probe_skips_junk : forall l, is_nil (strip (strip_inline_comment l)) = junk l.
+Proof. exact probe_blank_is_junk. Qed.
+Print Assumptions C07_probe_skips_junk.
 
 (* a tab counts 4 columns for Reduino, up to 8 for Python *)
 Theorem C07_mixed_tabs_refuted :
@@ -61,37 +82,40 @@ Theorem C07_mixed_tabs_refuted :
 Proof. exact mixed_tabs_refuted. Qed.
 Print Assumptions C07_mixed_tabs_refuted.
 
-(* a trailing comment on the column-0 `while True:` header changes the phase of the body *)
-Theorem C07_header_trailing_comment_refuted :
-  exists h tr body,
-    trail_ok true tr = true /\ stmt_ok h = true /\
-    map erase_item (parse_top ((h ++ tr) :: body)) <> map erase_item (parse_top (h :: body)).
-Proof. exact header_trailing_comment_refuted. Qed.
-Print Assumptions C07_header_trailing_comment_refuted.
+(* (repaired; was C07_header_trailing_comment_refuted) a trailing comment on a column-0 line of the
+   script - the `while True:` header, any other block header, a def, an import, a statement -
+   changes nothing of what parse() builds from it and from what follows: same blocks, same
+   function, same phase *)
+Theorem C07_header_trailing_comment_invisible : forall h tr body,
+  trail_ok true tr = true -> stmt_ok h = true ->
+  map erase_item (parse_top ((h ++ tr) :: body)) = map erase_item (parse_top (h :: body)).
+Proof. exact header_trailing_comment_invisible. Qed.
+Print Assumptions C07_header_trailing_comment_invisible.
 
-Theorem C07_header_trailing_comment_shape :
-  map erase_item (parse_top w_hdr_comment)
-    = [SSetup [SBlock KWhile [119;104;105;108;101;32;84;114;117;101;58] []];
-       SSetup [SLeaf [108;101;100;46;116;111;103;103;108;101;40;41]]]
+(* the former witness `while True:  # main loop`: hypotheses satisfied, body = the main loop *)
+Example C07_header_trailing_comment_shape :
+  map erase_item (parse_top w_hdr_comment) = [SLoop [SLeaf [108;101;100;46;116;111;103;103;108;101;40;41]]]
   /\ map erase_item (parse_top w_hdr_plain) = [SLoop [SLeaf [108;101;100;46;116;111;103;103;108;101;40;41]]].
 Proof. exact header_trailing_comment_shape. Qed.
 Print Assumptions C07_header_trailing_comment_shape.
 
-(* a trailing comment on `else:` at any depth detaches the branch *)
-Theorem C07_else_trailing_comment_refuted :
-  map erase (parse_lines w_else_comment) <> map erase (parse_lines w_else_plain)
+(* (repaired; was C07_else_trailing_comment_refuted - the general statement is C07_roundtrip_partial,
+   whose guard now allows a trailing comment on elif/else/except) the former witness
+   `else:  # otherwise` parses like `else:`, the branch stays a branch *)
+Example C07_else_trailing_comment_witness :
+  map erase (parse_lines w_else_comment) = map erase (parse_lines w_else_plain)
   /\ map erase (parse_lines w_else_comment)
      = [SBlock KIf [105;102;32;120;32;62;32;48;58] [SLeaf [97;32;61;32;49]];
-        SLeaf [101;108;115;101;58]; SLeaf [97;32;61;32;50]].
-Proof. exact else_trailing_comment_refuted. Qed.
-Print Assumptions C07_else_trailing_comment_refuted.
+        SBlock KElse [101;108;115;101;58] [SLeaf [97;32;61;32;50]]].
+Proof. exact else_trailing_comment_witness. Qed.
+Print Assumptions C07_else_trailing_comment_witness.
 
 (* ---------------------------------------------------------------- re-layout invariance (nested level) *)
 
 (* the block-skeleton parser (model of _parse_simple_lines) applied to ANY layout inside the guard
-   - junk lines (blank / white-space-only / comment-only, deeper than the enclosing header) before
-   any statement, trailing blanks or a trailing comment after any statement (no comment on
-   elif/else/except), any indentation unit of blanks and tabs - gives back the skeleton *)
+   - junk lines (blank / white-space-only / comment-only, at ANY column) before any statement,
+   elif/else/except included; trailing blanks or a trailing comment after any statement,
+   elif/else/except included; any indentation unit of blanks and tabs - gives back the skeleton *)
 Theorem C07_roundtrip_partial : forall u ns,
   layout_ok u ns = true ->
   map erase (parse_lines (render_list (ind_unit u) O ns)) = map lerase ns.
@@ -105,22 +129,24 @@ Theorem C07_relayout_invariant_partial : forall u1 u2 ns1 ns2,
 Proof. exact relayout_invariant. Qed.
 Print Assumptions C07_relayout_invariant_partial.
 
-(* non-vacuity: a tab-indented layout with comment lines, blank lines and trailing comments, and a
-   3-space layout of the same skeleton, are both inside the guard *)
+(* non-vacuity: a tab-indented layout with comment lines (one at column 0 inside the if block,
+   one at column 0 before `else:`), blank lines and trailing comments (one on `else:`), and a
+   3-space layout of the same skeleton (column-0 comment inside the while block), are both
+   inside the guard *)
 Definition ex_layout_a : list ltree :=
   [LBlock [[35;32;99]] KIf [105;102;32;120;32;62;32;49;58] [32;32;35;32;119;104;121]
-     [LLeaf [[]; [9;9;35;32;100;101;101;112]] [97;32;61;32;49] [32;35;32;116];
+     [LLeaf [[]; [35;32;99;111;108;48]] [97;32;61;32;49] [32;35;32;116];
       LBlock [] KWhile [119;104;105;108;101;32;97;32;60;32;51;58] [] [LLeaf [] [97;32;43;61;32;49] [32;32]]];
-   LBlock [[]] KElse [101;108;115;101;58] [32] [LLeaf [] [98;32;61;32;50] []]].
+   LBlock [[]; [35;32;120]] KElse [101;108;115;101;58] [32;35;32;111] [LLeaf [] [98;32;61;32;50] []]].
 Definition ex_layout_b : list ltree :=
   [LBlock [] KIf [105;102;32;120;32;62;32;49;58] []
      [LLeaf [] [97;32;61;32;49] [];
-      LBlock [[32;32;32;32;32;32;35;32;120]] KWhile [119;104;105;108;101;32;97;32;60;32;51;58] [35;32;103;111] [LLeaf [] [97;32;43;61;32;49] []]];
+      LBlock [[32;32;32;32;32;32;35;32;120]] KWhile [119;104;105;108;101;32;97;32;60;32;51;58] [35;32;103;111] [LLeaf [[35;32;121]] [97;32;43;61;32;49] []]];
    LBlock [] KElse [101;108;115;101;58] [] [LLeaf [[32;32;32;32;35;32;121]] [98;32;61;32;50] []]].
 Example C07_relayout_nonvacuous :
   layout_ok [9] ex_layout_a = true /\ layout_ok [32;32;32] ex_layout_b = true
   /\ map lerase ex_layout_a = map lerase ex_layout_b
-  /\ length (render_list (ind_unit [9]) O ex_layout_a) = 10%nat.
+  /\ length (render_list (ind_unit [9]) O ex_layout_a) = 11%nat.
 Proof. repeat split; vm_compute; reflexivity. Qed.
 Print Assumptions C07_relayout_nonvacuous.
 
